@@ -20,11 +20,12 @@ import random
 from lib import vlib
 
 GODEBUG = {"GODEBUG": "tlsrsakex=1,tls3des=1,tls10server=1"}
-H2_SUITES = ("EG", "XG")
+H2_SUITES = ("EG", "XG", "CH")
 ALL_SUITES = ["EG", "EC", "RC", "R3", "XG"]
 GO_ORDER = ["XG", "EG", "EC", "RC", "R3"]
 PROTOS = ["h2", "http/1.1", "spdy/3.1"]
 SNI = {"a": "a.example", "b": "b.example", "": ""}
+NO_RULE = {"on": False, "sni": "", "grade": "C", "np": [], "clientauth": False, "chacha": False}
 
 
 RETRY_ENV = dict(GODEBUG, VERIF_TLSNEG_WORKERS="1", VERIF_TLSNEG_TIMEOUT="90")
@@ -66,11 +67,18 @@ def _machinery(res, what):
 
 # ======================================================================================= C41
 
+def _hrule(r):
+    """spec rule record -> harness RuleSpec (None when no rule is configured)"""
+    if not r["on"]:
+        return None
+    return {"sni": SNI[r["sni"]], "grade": r["grade"], "np": r["np"], "clientauth": r["clientauth"], "chacha": r["chacha"]}
+
+
 def neg_harness_case(c):
     cl, sv = c["cl"], c["sv"]
     rule = None
     if sv["rule"]["on"]:
-        rule = {"sni": SNI[sv["rule"]["sni"]], "grade": sv["rule"]["grade"], "np": sv["rule"]["np"]}
+        rule = _hrule(sv["rule"])
     return {"id": c["id"],
             "cl": {"kind": cl["kind"], "min": cl["min"], "max": cl["max"], "suites": cl["suites"],
                    "scsv": cl["scsv"], "ecc": cl["ecc"], "alpn": cl["alpn"], "sni": SNI[cl["sni"]]},
@@ -98,15 +106,16 @@ def neg_sample_inputs(ctx, num, stream=0):
             suites = [x for x in GO_ORDER if x in s]
             scsv, ecc = False, rnd.choice(["ok", "ok", "foreign"])
         else:
-            suites = _perm(rnd, ALL_SUITES, 1, 5)
+            suites = _perm(rnd, ALL_SUITES + ["CH"], 1, 5)
             scsv, ecc = rnd.random() < 0.35, rnd.choice(["ok", "ok", "none", "foreign"])
         cl = {"kind": kind, "min": mn, "max": mx, "suites": suites, "scsv": scsv, "ecc": ecc,
               "alpn": _perm(rnd, PROTOS, 0, 3), "sni": rnd.choice(["a", "b"])}
         a, b = rnd.choice(svmm)
-        rule = {"on": False, "sni": "", "grade": "C", "np": []}
+        rule = dict(NO_RULE)
         if rnd.random() < 0.5:
-            rule = {"on": True, "sni": "a", "grade": rnd.choice(["A+", "A", "B", "C"]), "np": _perm(rnd, PROTOS, 0, 3)}
-        sv = {"min": a, "max": b, "suites": [] if rnd.random() < 0.3 else _perm(rnd, ALL_SUITES, 1, 5),
+            rule = {"on": True, "sni": "a", "grade": rnd.choice(["A+", "A", "B", "C"]), "np": _perm(rnd, PROTOS, 0, 3),
+                    "clientauth": False, "chacha": rnd.random() < 0.5}
+        sv = {"min": a, "max": b, "suites": [] if rnd.random() < 0.3 else _perm(rnd, ALL_SUITES + ["CH"], 1, 5),
               "prefer": rnd.random() < 0.6, "np": _perm(rnd, PROTOS, 0, 3), "rule": rule,
               "cert": "ecdsa" if rnd.random() < 0.2 else "rsa"}
         out.append({"id": i + 1, "cl": cl, "sv": sv})
@@ -263,12 +272,12 @@ def res_harness_case(h):
             e = st["sv"]
             steps.append({"op": "epoch", "sv": {"min": 0, "max": e["max"], "suites": e["suites"], "prefer": True,
                                                   "cert": "rsa", "key": e["key"], "tickets": e["tickets"],
-                                                  "cache": e["cache"], "auth": e["auth"]}})
+                                                  "cache": e["cache"], "auth": e["auth"], "rule": _hrule(e["rule"])}})
         else:
             c = st["cl"]
             steps.append({"op": "conn", "offer": st["offer"], "tamper": st["tamper"],
                           "cl": {"kind": c["kind"], "min": 10, "max": c["max"], "suites": c["suites"], "ecc": "ok",
-                                 "sni": "a.example", "cert": c["cert"], "noticket": c["noticket"]}})
+                                 "sni": SNI[c["sni"]], "cert": c["cert"], "noticket": c["noticket"]}})
     return {"id": h["id"], "steps": steps}
 
 
@@ -276,13 +285,22 @@ def res_sample_histories(ctx, num, thorough, stream=0):
     rnd = random.Random(ctx.seed * 15485863 + stream)
     sv_max = [0, 11, 10] if thorough else [0, 11]
     cl_max = [12, 11, 10] if thorough else [12, 11]
-    sv_suites = [["EG", "EC"], ["EC"], ["EG"], ["RC", "EC"]]
-    go_suites = [["EG", "EC", "RC"], ["EC", "RC"], ["EG"], ["RC"]]
+    sv_suites = [["EG", "EC"], ["EC"], ["EG"], ["RC", "EC"], ["CH", "EG", "EC"]]
+    go_suites = [["EG", "EC", "RC"], ["EC", "RC"], ["EG"], ["RC"], ["EG", "CH", "EC"]]
+
+    def rule():
+        if rnd.random() < 0.45:
+            return dict(NO_RULE)
+        g, ca, ch = rnd.choice([("C", True, False), ("C", True, False), ("C", False, True), ("A+", False, False),
+                                ("C", False, False), ("A+", True, True)] if thorough else
+                               [("C", True, False), ("C", True, False), ("C", False, True), ("A+", False, False)])
+        return {"on": True, "sni": "a", "grade": g, "np": [], "clientauth": ca, "chacha": ch}
     raw_suites = go_suites + [["RC", "EC", "EG"]]
 
     def epoch():
         return {"key": rnd.choice([1, 1, 2]), "tickets": rnd.random() < 0.8, "cache": rnd.choice([0, 1, 1, 2]),
-                "max": rnd.choice(sv_max), "suites": rnd.choice(sv_suites), "auth": rnd.choice(["none", "none", "request", "require"])}
+                "max": rnd.choice(sv_max), "suites": rnd.choice(sv_suites), "auth": rnd.choice(["none", "none", "request", "require"]),
+                "rule": rule()}
 
     out = []
     for i in range(num):
@@ -294,13 +312,13 @@ def res_sample_histories(ctx, num, thorough, stream=0):
         for k in range(rnd.randint(2, 4)):
             if have_conn and rnd.random() < 0.35 and steps[-1]["op"] != "epoch":
                 ne = dict(e)
-                for d in rnd.sample(["key", "tickets", "cache", "max", "suites", "auth"], rnd.choice([1, 1, 2])):
+                for d in rnd.sample(["key", "tickets", "cache", "max", "suites", "auth", "rule", "rule"], rnd.choice([1, 1, 2])):
                     ne[d] = epoch()[d]
                 e = ne
                 steps.append({"op": "epoch", "sv": e})
                 continue
             cl = {"kind": kind, "max": rnd.choice(cl_max + [12]), "suites": rnd.choice(go_suites if kind == "go" else raw_suites),
-                  "cert": rnd.random() < 0.6, "noticket": noticket}
+                  "cert": rnd.random() < 0.6, "noticket": noticket, "sni": rnd.choice(["a", "a", "b"])}
             offer = "saved" if (have_conn and rnd.random() < 0.85) else "none"
             tamper = "none"
             if offer == "saved" and rnd.random() < 0.45:
@@ -473,10 +491,11 @@ def check_c44(ctx):
     ctx.tlc_must_pass("Tls", "TicketMC", "TicketMC.cfg", defines={"PRESET": "mc", "TIER": ctx.tier, "STEPS": steps},
                       timeout=3000, want_cases=False)
     hists = _gen_hist(ctx, "tamper", 2, "quick")
+    hists += _gen_hist(ctx, "policy", 3, ctx.tier)
     if not q:
         hists += _gen_hist(ctx, "config", 3, "quick")
     nsample = 1500 if q else 20000
-    ctx.cov["constants"]["TicketGen"] = {"presets": ["tamper"] + ([] if q else ["config"]) + ["file"], "sampled": nsample}
+    ctx.cov["constants"]["TicketGen"] = {"presets": ["tamper", "policy"] + ([] if q else ["config"]) + ["file"], "sampled": nsample}
     hists += _gen_hist(ctx, "file", 8, ctx.tier, hist=res_sample_histories(ctx, nsample, not q))
     ctx.cov["exhaustive"] = False
     run_res(ctx, hists, "C44")
